@@ -5,6 +5,7 @@ import (
 	"fmt"
 	"io"
 	"reflect"
+	"strconv"
 	"strings"
 
 	"github.com/semihalev/twig"
@@ -219,14 +220,34 @@ func handObjects() []interface{} {
 		Outer{inner: inner{ID: 5, Created: "then"}, inner2: &inner2{By: "me"}, Extra: "ox"}, &Outer{inner: inner{ID: 6}, Extra: "oy"},
 		map[string]interface{}{"1.1": "a", "1.10": "b", "1234": "c", "01234": "d", "1e3": "e", "1000": "f", "A": "g"}, map[string]string{"1.10": "sb", "01": "s1", "1": "s2"},
 		Shadow{EmbV: EmbV{Value: 3, Sum: "field-sum", Scale: 1.5}, K: 1}, &Shadow{EmbV: EmbV{Value: 4, Sum: "field-sum-2"}, K: 2},
+		// database rows: fields whose TYPES have methods of their own (sql.Null*: Value, Scan; time.Time), optional times
+		*(&Val{T: "row", S: "e@x", I: 3}).Build(0).(*Row), (&Val{T: "row", I: 4}).Build(0),
+		wideObject(false), wideObject(true),
 	}
+}
+
+// wideObject is a struct with 300 fields (a denormalised reporting row): W<i> holds i.
+func wideObject(ptr bool) interface{} {
+	fields := make([]reflect.StructField, 300)
+	for i := range fields {
+		fields[i] = reflect.StructField{Name: "W" + strconv.Itoa(i), Type: reflect.TypeOf(0)}
+	}
+	p := reflect.New(reflect.StructOf(fields))
+	for i := range fields {
+		p.Elem().Field(i).SetInt(int64(i))
+	}
+	if ptr {
+		return p.Interface()
+	}
+	return p.Elem().Interface()
 }
 
 var c20Names = []string{"A", "B", "C", "X", "Y", "ID", "Title", "Level", "Name", "Extra", "hid", "v",
 	"Describe", "Bump", "Hello", "Sum", "Scale", "Nothing", "Pair", "Value", "Double", "Base", "Mid", "name", "nil", "zzz", "F0", "F1", "F2", "F3",
 	"At", "Source", "Mail", "Lang", "Pages", "Draft", "Stamp", "Tracking", "Record", "Author",
 	"K", "N", "Desc", "Fetch", "Fetch2", "Join", "Args", "Created", "By",
-	"1.1", "1.10", "1234", "01234", "1e3", "1000", "01", "1", "Cur", "Cur", "P"}
+	"1.1", "1.10", "1234", "01234", "1e3", "1000", "01", "1", "Cur", "Cur", "P",
+	"Email", "Seats", "DeletedAt", "CreatedAt", "UpdatedAt", "W3", "W4", "W255", "W256", "W260", "W299"}
 
 var genFieldNames = []string{"A", "B", "C", "X", "F0", "F1", "F2", "F3"}
 var genFieldTypes = []reflect.Type{reflect.TypeOf(0), reflect.TypeOf(""), reflect.TypeOf(true), reflect.TypeOf(1.5), reflect.TypeOf([]int(nil))}
